@@ -45,6 +45,9 @@ def check(ctx):
     ctx.floor('A11', 8, 'node-field stores and degree consumers')
     ctx.floor('A11c', 5, 'class-level stores')
     ctx.floor('A11s', 2, 'constructor stores of mutated containers')
+    from ..rules import shared as _shm
+    _shm.check_class_level_containers(ctx)
+    ctx.floor('A11m', 3, 'mutable containers created in class bodies')
 
 
 from ..selftest import V  # noqa: E402
